@@ -139,14 +139,17 @@ void bn_set_bit(bn_t a, uint_t bit, int value) {
 
 	RLC_RIP(bit, d, bit);
 
-	bn_grow(a, d);
-
 	if (value == 1) {
+		bn_grow(a, d + 1);
+		/* Clear the digits between the current top and the one being set. */
+		for (int i = a->used; i <= d; i++) {
+			a->dp[i] = 0;
+		}
 		a->dp[d] |= ((dig_t)1 << bit);
 		if ((d + 1) > a->used) {
 			a->used = d + 1;
 		}
-	} else {
+	} else if (d < a->used) {
 		a->dp[d] &= ~((dig_t)1 << bit);
 		bn_trim(a);
 	}
